@@ -51,9 +51,14 @@ def expectedOfGens (root : RelPath) (gens : List LGen) : List RelPath :=
 def expectedPaths (h : Hist) : List RelPath :=
   (h :: allDescendants h).foldl (fun acc x => (expectedOfGens x.root x.gens).foldl appendNew acc) []
 
-/-- `test_for_missing_files`: the not-found paths that the ignore spec does not match (relative to the root) -/
+/-- a path is excluded when the path itself or one of the folders above it is matched: the traversal never descends
+into a matched folder (`is_ignored` in `test_for_missing_files`) -/
+def hitAbove (hit : RelPath → Bool) (p : RelPath) : Bool :=
+  (List.range p.length).any fun i => hit (p.take (i + 1))
+
+/-- `test_for_missing_files`: the not-found paths that are not excluded (relative to the root) -/
 def missingAfter (hit : RelPath → Bool) (notFound : List RelPath) : List RelPath :=
-  notFound.filter fun p => !hit p
+  notFound.filter fun p => !hitAbove hit p
 
 def fileContent (t : Node) (p : RelPath) : Bytes :=
   match t.at? p with
